@@ -4,6 +4,7 @@ id="$1"; wt=/tmp/wt/$id; out=/verif/seeded/$id
 [ -f $wt/.seed/patch.diff ] || { echo "no patch in $wt"; exit 1; }
 mkdir -p $out; cd $wt
 git checkout -q -- src include 2>/dev/null
+git checkout -q --detach $(git -C /repo rev-parse HEAD) 2>/dev/null   # current tree incl. fix: commits
 git apply .seed/patch.diff || { echo "patch does not apply"; exit 1; }
 b() { cmake -G Ninja -B _build -DCMAKE_BUILD_TYPE=RelWithDebInfo -DCMAKE_CXX_FLAGS=-Wno-error >/dev/null 2>&1 && cmake --build _build -j${JOBS:-8} >/dev/null 2>&1; }
 b || { echo "build with patch failed"; exit 1; }
@@ -23,7 +24,7 @@ id,tw,rw,rwo=sys.argv[1:5]
 notes=open('/tmp/wt/%s/.seed/notes.txt'%id).read()
 meta={"seed":id,"property":id[:3],"tests_with_change":tw,"demo_exit_with_change":int(rw),"demo_exit_without_change":int(rwo),
  "confirmed": ('100% tests passed' in tw) and int(rw)!=0 and int(rwo)==0,
- "what_ran":"in a scratch worktree of /repo at the pinned commit: built with the patch, ran ctest (8 executables), built and ran demo.cpp (must fail); reverted the patch, rebuilt, ran demo.cpp (must pass)",
+ "base":"/repo HEAD (pinned commit + fix: commits)","what_ran":"in a scratch worktree of /repo at its current HEAD: built with the patch, ran ctest (8 executables), built and ran demo.cpp (must fail); reverted the patch, rebuilt, ran demo.cpp (must pass)",
  "needs_to_manifest_and_notes":notes}
 json.dump(meta,open('/verif/seeded/%s/meta.json'%id,'w'),indent=1)
 print(id, "confirmed" if meta["confirmed"] else "NOT CONFIRMED", tw, rw, rwo)
